@@ -51,7 +51,7 @@ def hostile(w):
     if mk is None:
         return {"reproduced": False, "detail": "no catalogue for %r" % (w.get("message"),)}
     cls, part = mk
-    values = {"NewTextVector": ["zz", "", None], "NewNumberVector": ["1", "1.5", "1:30", "0", "9" * 400 + ".0", "9" * 400, "1" + "0" * 400 + ":30", "-" + "9" * 400 + ".5"], "NewSwitchVector": ["On", "Off"],
+    values = {"NewTextVector": ["zz", "", None], "NewNumberVector": ["1", "1.5", "1:30", "0", None, "", "9" * 400 + ".0", "9" * 400, "1" + "0" * 400 + ":30", "-" + "9" * 400 + ".5"], "NewSwitchVector": ["On", "Off"],
               "NewBLOBVector": [("YWJj", "3"), ("YWJj", "99"), ("YWJj", "abc"), ("", "0"), (None, "3"), ("!!!", "3")]}[w["message"]]
     names = ["A", "B", "N", "S", "L", "NOPE"]
     probs = []
@@ -75,6 +75,9 @@ def hostile(w):
                 for vn in after:
                     if vn != target and after[vn] != before[vn]:
                         probs.append("property %s changed by a message addressed to %s" % (vn, target))
+                bad_num = [k for k, x in d._vectors["NUMBER"]._elements.items() if not isinstance(x._value, (int, float))] if "NUMBER" in d._vectors else []
+                if bad_num:
+                    probs.append("%s(name=%s){%s=%r}: number element(s) %s no longer hold a number" % (w["message"], target, n, v, bad_num))
     try:
         r.process_message(cls(device="DEV", name=target, children=()), sender=c)
     except Exception as e:
